@@ -19,7 +19,8 @@ PARTIAL = ["p-values use scipy's chi-square / t tails on both sides (trusted); s
 RULE = ("discrete frames with X, Y and 0-2 conditioning columns, 20-200 rows, sparse strata and empty cells, cards 2-4, integer / categorical "
         "columns, every named wrapper and lambda in {pearson, log-likelihood, freeman-tukey, mod-log-likelihood, neyman, cressie-read, "
         "numeric}; exactly independent tables; continuous frames with affine reparametrisations for pearsonr; non-trivial = at least one "
-        "stratum with dof > 0; distinct = case JSON")
+        "stratum with dof > 0; distinct = case JSON"
+        " Also: verdicts at very small levels and next to the p-value, pearsonr verdicts, Z in every iterable form, PC usage of the test parameters in every variant and on a reused estimator.")
 ASSUMPTIONS = ["Yates' continuity correction on 2x2 tables as scipy applies it by default is part of the documented test"]
 BUDGET_QUICK = 90
 LEVEL_TEXT = ("Kernel-checked for an ARBITRARY cell function (hence every lambda): the stratified statistic and its degrees of freedom are "
